@@ -867,8 +867,7 @@ class TypedValue(Value):
                     # Adding an additional layer here isn't helpful
                     return can_assign
                 bounds_maps.append(can_assign)
-            if not bounds_maps:
-                return CanAssignError(f"Cannot assign {other} to Thrift enum {self}")
+            # An empty union is Never, which is assignable to everything.
             return unify_bounds_maps(bounds_maps)
         elif isinstance(other, AnnotatedValue):
             return self.can_assign_thrift_enum(other.value, ctx)
